@@ -94,11 +94,21 @@ Definition aipsw_risk (c : gcfg) (a : bool) (l : list grow) : Q :=
 Definition aipsw_rd c l := aipsw_risk c true l - aipsw_risk c false l.
 Definition aipsw_rr c l := aipsw_risk c true l / aipsw_risk c false l.
 
+(* ---- executable twins that reduce after every addition (same values up to ==, GeneralizeProofs.*_x_eq); the run
+   evaluates these, because exact rationals of binary floats make unreduced sums explode *)
+Definition ipsw_risk_x (c : gcfg) (a : bool) (l : list grow) : Q :=
+  Qsumr (fun r => ind (smp r) * ind (g_arm a r) * tot_w c r * gy r) l /
+  Qsumr (fun r => ind (smp r) * ind (g_arm a r) * tot_w c r) l.
+Definition gt_risk_x (gn : bool) (a : bool) (l : list grow) : Q :=
+  Qsumr (fun r => ind (in_tgt gn r) * gqa a r) l / Qsumr (fun r => ind (in_tgt gn r) * 1) l.
+Definition aipsw_risk_x (c : gcfg) (a : bool) (l : list grow) : Q :=
+  Qsumr (fun r => ind (in_tgt (gen c) r) * gqa a r + aug c a r) l / Qsumr (fun r => ind (in_tgt (gen c) r) * 1) l.
+
 (* ---- what the run prints: [risk1; risk0; rd; rr] of each estimator and of the specification *)
 Definition quad (r1 r0 : Q) : list Q := [r1; r0; r1 - r0; r1 / r0].
-Definition ipsw_out c l := quad (ipsw_risk c true l) (ipsw_risk c false l).
-Definition gt_out gn l := quad (gt_risk gn true l) (gt_risk gn false l).
-Definition aipsw_out c l := quad (aipsw_risk c true l) (aipsw_risk c false l).
+Definition ipsw_out c l := quad (ipsw_risk_x c true l) (ipsw_risk_x c false l).
+Definition gt_out gn l := quad (gt_risk_x gn true l) (gt_risk_x gn false l).
+Definition aipsw_out c l := quad (aipsw_risk_x c true l) (aipsw_risk_x c false l).
 Definition gstd_out gn l := quad (gstd gn true l) (gstd gn false l).
 
 (* cell proportions / means the saturated fits must reproduce (oracle validation in the run) *)
@@ -106,3 +116,15 @@ Definition sat_ps (s : nat) (l : list grow) : Q := cNS s l / cN s l.
 Definition sat_pa (s : nat) (l : list grow) : Q := cNSa s true l / cNS s l.
 Definition cells_out (l : list grow) : list (nat * list Q) :=
   map (fun s => (s, [sat_ps s l; sat_pa s l; ybarS s true l; ybarS s false l])) (gstrata l).
+
+(* ---- how the run writes a case: the raw combined rows once, the fitted nuisance values as tables indexed by
+   the stratum code (the run checks that the implementation's per-row values are constant within a stratum) *)
+Record graw := { rs : nat; rsmp : bool; ra : bool; ry : Q }.
+Definition GR (s : nat) (sm a : bool) (y : Q) : graw := {| rs := s; rsmp := sm; ra := a; ry := y |}.
+Definition attach (tps tpa tq1 tq0 : list Q) (r : graw) : grow :=
+  {| gs := rs r; smp := rsmp r; ga := ra r; gy := ry r;
+     ps := nth (rs r) tps 0; pa := nth (rs r) tpa 0; gq1 := nth (rs r) tq1 0; gq0 := nth (rs r) tq0 0 |}.
+Definition attach_all tps tpa tq1 tq0 (l : list graw) : list grow := map (attach tps tpa tq1 tq0) l.
+Definition bare (l : list graw) : list grow := attach_all [] [] [] [] l.
+Definition Cfg (gn sS use sA : bool) (n_s n_a : Q) : gcfg :=
+  {| gen := gn; stabS := sS; rx := use; stabA := sA; nS := n_s; nA := n_a |}.
